@@ -90,9 +90,9 @@ func (fr *Frame) val(v ssa.Value) string {
 	case *ssa.Global:
 		a := fr.globalAddr(x)
 		if a == nil {
-			return vc.declare(sym("gref!"+x.Pkg.Pkg.Path()+"."+x.Name()), "Int")
+			return vc.globalRef(x.Pkg.Pkg.Path(), x.Name())
 		}
-		return vc.declare(sym("gaddr!"+x.Pkg.Pkg.Path()+"."+x.Name()), "Int")
+		return vc.globalRef(x.Pkg.Pkg.Path(), "&"+x.Name())
 	case *ssa.Function:
 		fr.clos[v] = &closureVal{fn: x}
 		return vc.funcConst(QualName(x))
@@ -110,6 +110,10 @@ func (fr *Frame) globalAddr(g *ssa.Global) *Addr {
 	elem := g.Type().(*types.Pointer).Elem()
 	if isAggregate(elem) {
 		return nil
+	}
+	if _, ok := vc.DB.ConstGlobals[shortPkg(g.Pkg.Pkg.Path())+"."+g.Name()]; ok && fr.fn.Name() != "init" {
+		// assigned once in init with a fresh object: a constant address
+		return &Addr{Kind: "const", Ref: vc.globalRef(g.Pkg.Pkg.Path(), "@"+g.Name()), Sort: vc.sortOf(elem), Typ: elem}
 	}
 	sort := vc.sortOf(elem)
 	hv := vc.heapVar("G!"+shortPkg(g.Pkg.Pkg.Path())+"."+g.Name(), sort)
@@ -502,6 +506,18 @@ func (fr *Frame) enterLoop(li *loopInfo, reach string, st *State, pre map[*ssa.P
 	}
 	li.st = hst
 	li.reach = vc.def(fmt.Sprintf("loop%d.%sreach", li.ordinal, fr.id), "Bool", reach)
+	// 2b. the function's frame is an implicit loop invariant (checked on entry
+	// and at every back edge like any other invariant)
+	if fr.parent == nil && vc.frameAllowed != nil {
+		for _, v := range sortedKeys(vc.hsort) {
+			if g := vc.frameGoal(v, st); g != "" {
+				vc.oblige("frame", fmt.Sprintf("%s/%s/loop%d/frame[%s]/entry", vc.prop, fname, li.ordinal, strings.TrimPrefix(v, "F!")), "modifies (implicit loop invariant)", reach, g, li.header.Instrs[0].Pos(), true)
+			}
+			if g := vc.frameGoal(v, hst); g != "" {
+				vc.assume(li.reach, g)
+			}
+		}
+	}
 	// 3. assume the invariant in the arbitrary iteration
 	if spec != nil && fr.env != nil {
 		env := fr.env.at(hst, fr)
@@ -540,6 +556,13 @@ func (fr *Frame) backEdge(li *loopInfo, from *ssa.BasicBlock, cond string, st *S
 		}
 		g := env.evalBool(inv.E)
 		vc.oblige("invariant", fmt.Sprintf("%s/%s/loop%d/invariant[%s]/preserved", vc.prop, fname, li.ordinal, inv.Name), inv.Src, cond, g, from.Instrs[len(from.Instrs)-1].Pos(), inv.Claimed)
+	}
+	if fr.parent == nil && vc.frameAllowed != nil {
+		for _, v := range sortedKeys(vc.hsort) {
+			if g := vc.frameGoal(v, st); g != "" {
+				vc.oblige("frame", fmt.Sprintf("%s/%s/loop%d/frame[%s]/preserved", vc.prop, fname, li.ordinal, strings.TrimPrefix(v, "F!")), "modifies (implicit loop invariant)", cond, g, from.Instrs[len(from.Instrs)-1].Pos(), true)
+			}
+		}
 	}
 	if spec.Decreases != nil && li.dec0 != "" {
 		d1 := env.eval(spec.Decreases.E).t
@@ -897,6 +920,12 @@ func (fr *Frame) unop(x *ssa.UnOp, st *State, reach string) {
 	switch x.Op {
 	case token.MUL: // load
 		pt := x.X.Type().Underlying().(*types.Pointer)
+		if g, ok := x.X.(*ssa.Global); ok {
+			if _, z := vc.DB.ZeroGlobals[shortPkg(g.Pkg.Pkg.Path())+"."+g.Name()]; z {
+				fr.vals[x] = zeroOf(vc.sortOf(pt.Elem()))
+				return
+			}
+		}
 		if isAggregate(pt.Elem()) {
 			fr.vals[x] = vc.loadStruct(st, reach, pt.Elem(), fr.val(x.X))
 			return
